@@ -27,7 +27,7 @@ func genViolation(r *PRNG, comp, inMsg bool, openLen ...int) SItem {
 	small := Payload{Len: r.Pick([]int{0, 1, 5, 60, 125}), Seed: r.Uint64() >> 1}
 	it := SItem{Kind: "raw", Pay: small}
 	for {
-		switch r.Intn(13) {
+		switch r.Intn(14) {
 		case 0:
 			it.B0, it.Reason = fin|0x20|anyLegal, "rsv2"
 			if comp && r.Bool() {
@@ -85,6 +85,22 @@ func genViolation(r *PRNG, comp, inMsg bool, openLen ...int) SItem {
 		case 10:
 			it.B0, it.Reason = fin|8, "close-utf8"
 			it.Data = append([]byte{0x03, 0xe8}, r.PickS([]string{"\xff", "ab\xc3", "\xed\xa0\x80", "ok\x80"})...)
+		case 13:
+			// one frame that breaks several rules at once (every rule it breaks is a 1002 rule)
+			it.Reason = "several-at-once"
+			it.B0 = 0x20 | 0x10 | byte(r.Pick([]int{8, 9, 10, 3, 11})) // RSV2, RSV3, control or reserved opcode
+			if !comp || r.Bool() {
+				it.B0 |= 0x40
+			}
+			if r.Chance(1, 4) {
+				it.B0 |= fin
+			}
+			it.FlipMask = r.Chance(3, 4)
+			if r.Chance(3, 4) {
+				it.LenCode = 126
+				it.Claimed = uint64(r.Pick([]int{126, 200, 1000}))
+				it.Pay = Payload{Len: r.Pick([]int{0, 10, 126}), Seed: 5}
+			}
 		case 11, 12:
 			it.B0, it.Reason = fin|natural, "length-topbit"
 			if r.Chance(1, 3) {
